@@ -471,8 +471,63 @@ def shell_cases(rng, thorough):
     return cases
 
 
+NEAR = [1.00001, 0.99999, 2 - 1e-9, 1 + 1e-12, 1e-7, 2.0, 1.0, 0.0, 0.5, 1.3, -1e-4, 2 + 1e-6]
+
+
+def mo_laws_event(seed):
+    """Occupations next to the integers (and slightly outside [0, 2]): the laws of the statement in floating point."""
+    from iodata.orbitals import MolecularOrbitals
+    rng = random.Random(seed)
+    kind = rng.choice(["restricted", "restricted", "unrestricted"])
+    n = rng.randint(1, 5)
+    ev = {"op": "MoLaws", "kind": kind, "seed": seed, "spin_sum": True, "nelec_is_total": True, "spinpol_is_difference": True,
+          "set_reads_back": True, "set_keeps_other": True, "amb": False, "msg": ""}
+    try:
+        if kind == "restricted":
+            occs = np.array([rng.choice(NEAR) for _ in range(n)])
+            amb = None
+            if rng.random() < 0.4:
+                amb = np.array([rng.choice([0.0, 1e-5, -1e-5, 0.5, 1.0]) for _ in range(n)])
+                ev["amb"] = True
+            mo = MolecularOrbitals("restricted", n, n, occs=occs, occs_aminusb=amb)
+        else:
+            nb_ = rng.randint(0, n)
+            occs = np.array([rng.choice(NEAR[:10]) / 2 for _ in range(n + nb_)])
+            mo = MolecularOrbitals("unrestricted", n, nb_, occs=occs)
+        ev["occs"] = [float(x) for x in occs]
+        tol = 1e-12 * max(1.0, float(np.abs(occs).max()))
+        stored = occs if kind == "restricted" else None
+        if kind == "restricted":
+            ev["spin_sum"] = bool(np.allclose(mo.occsa + mo.occsb, stored, rtol=0, atol=tol))
+        else:
+            ev["spin_sum"] = bool(np.array_equal(np.concatenate([mo.occsa, mo.occsb]), occs))
+        ev["nelec_is_total"] = bool(abs(mo.nelec - (mo.occsa.sum() + mo.occsb.sum())) <= 10 * tol)
+        ev["spinpol_is_difference"] = bool(abs(mo.spinpol - abs(mo.occsa.sum() - mo.occsb.sum())) <= 10 * tol)
+        # assign one spin channel: it reads back, the other one stays
+        which = rng.choice(["a", "b"])
+        norb_w = mo.norba if which == "a" else mo.norbb
+        new = np.array([rng.choice(NEAR[:10]) / 2 for _ in range(norb_w)])
+        other0 = np.array(mo.occsb if which == "a" else mo.occsa, dtype=float)
+        if which == "a":
+            mo.occsa = new
+        else:
+            mo.occsb = new
+        got = mo.occsa if which == "a" else mo.occsb
+        other1 = mo.occsb if which == "a" else mo.occsa
+        ev["set_reads_back"] = bool(np.allclose(got, new, rtol=0, atol=1e-12))
+        ev["set_keeps_other"] = bool(np.allclose(other1, other0, rtol=0, atol=1e-12))
+    except Exception as exc:  # noqa: BLE001
+        ev["msg"] = f"{type(exc).__name__}: {str(exc)[:80]}"
+        ev["spin_sum"] = False
+    return [ev]
+
+
 def describe(tr, r):
     ev = tr[r]
+    if ev["op"] == "MoLaws":
+        bad = [k for k in ("spin_sum", "nelec_is_total", "spinpol_is_difference", "set_reads_back", "set_keeps_other") if not ev[k]]
+        return (f"MO laws on near-integer occupations [{ev['kind']}{' +aminusb' if ev['amb'] else ''}]: {','.join(bad)} {ev['msg'][:40]}",
+                f"a law of the statement fails in floating point: {ev}")
     prev = tr[r - 1]["obs"] if r > 0 else {}
     if ev["op"] == "ShellSet":
         c = ev["c"]
@@ -545,6 +600,7 @@ def check(run: Run):
     traces += pmap(shell_event, shell_cases(rng, run.thorough()))
     traces += pmap(shell_set_event, shell_set_cases())
     traces += pmap(shell_nb_event, shell_nb_cases(rng, run.thorough()))
+    traces += pmap(mo_laws_event, [run.seed * 104729 + i for i in range(run.pick(1500, 30000))])
     run.notes["tree_histories"] = ntree
     run.notes["shell_cases"] = len(traces) - nmo
 
@@ -552,7 +608,7 @@ def check(run: Run):
     import json
     for tr, r in zip(traces, reached):
         run.count()
-        if len(tr) > 1 or tr[0]["op"] in ("Shell", "ShellSet", "ShellNb") or any(tr[0]["a"][n] for n in ARRMAP):
+        if len(tr) > 1 or tr[0]["op"] in ("Shell", "ShellSet", "ShellNb", "MoLaws") or any(tr[0]["a"][n] for n in ARRMAP):
             run.distinct(hash(json.dumps([{k: e[k] for k in e if k != "obs"} for e in tr], sort_keys=True)))
         if r != len(tr):
             key, what = describe(tr, r)
